@@ -75,10 +75,8 @@ def run(ctx: vlib.Ctx):
     ctx.theorems("props/C02_typed_kernel.vo", ["C02_typed_code_is_model"], kernels=["K45a"])
     ctx.trusted += ["tools/kernels/k45a_typeddict_emit.py (translator of the emission loop of pack_typed_dict; validated each run against the helpers generated for random "
                     "TypedDict classes); TdEmit.v run_td_lines = semantics of the emitted statements"]
-    tycorr.k45a_validate(ctx, "pack")
     ctx.theorems("props/C02_ntdict_kernel.vo", ["C02_named_code_is_model", "C02_ntdict_code_is_model"], kernels=["K45b"])
     ctx.trusted += ["tools/kernels/k45b_namedtuple_pack.py (translator of the display pack_named_tuple returns; validated each run against generated encoder source)"]
-    tycorr.k45b_validate(ctx)
     ctx.theorems("props/C02_typevar.vo", ["C02_optional_code_is_model", "C02_typevar_code_is_model", "C02_typevar_pack_ref"], kernels=["K45c"])
     ctx.trusted += ["tools/kernels/k45c_optional_typevar.py (head of pack_special_typing_primitive + expr_or_maybe_none: exact-shape check, tests abstracted to booleans)"]
     ctx.coqchk(["VerifProps.C02_pack", "VerifProps.C02_collection_kernel", "VerifProps.C02_ntdict", "VerifProps.C02_typed_kernel", "VerifProps.C02_ntdict_kernel", "VerifProps.C02_typevar"])
@@ -92,10 +90,6 @@ def run(ctx: vlib.Ctx):
 
     cases, bad, log = tycorr.run(ctx, "c02_ty", ctx.budget(40, 300), 3, depth=3, foreign=1)
     hits = tyoracle.report_corr(ctx, "TyModel.pk/ref_enc vs BasicEncoder.encode", cases, bad, log, want="enc")
-    ncases, nbad, nlog = tycorr.run_nd(ctx, "c02_nd", ctx.budget(40, 300), foreign=0)
-    hits += tyoracle.report_corr(ctx, "TyNtDict.pk_nd/ref_enc_nd vs BasicEncoder.encode under an as_dict dialect", ncases, nbad, nlog, want="enc")
-    from harness.props import c01 as _c01
-    _c01.tv_part(ctx, "c02_tv", "enc", ctx.budget(40, 300))
 
     # direct oracle: independent reference interpreter + basic-ness + json.dumps
     n = ctx.budget(800, 5000) if not hits else ctx.budget(2500, 10000)
@@ -204,6 +198,13 @@ def run(ctx: vlib.Ctx):
         fam.dispose()
 
     format_mixin_part(ctx)
+    # round-6 parts last: the random streams of the parts above stay what they were for every seed
+    tycorr.k45a_validate(ctx, "pack")
+    tycorr.k45b_validate(ctx)
+    ncases, nbad, nlog = tycorr.run_nd(ctx, "c02_nd", ctx.budget(40, 300), foreign=0)
+    tyoracle.report_corr(ctx, "TyNtDict.pk_nd/ref_enc_nd vs BasicEncoder.encode under an as_dict dialect", ncases, nbad, nlog, want="enc")
+    from harness.props import c01 as _c01
+    _c01.tv_part(ctx, "c02_tv", "enc", ctx.budget(40, 300))
 
 
 FORMAT_MIXINS = {"orjson": ("DataClassORJSONMixin", "to_jsonb"), "msgpack": ("DataClassMessagePackMixin", "to_msgpack"),
